@@ -622,11 +622,14 @@ struct World
     case 14:
     case 15: {  // shared FixedArray + FixedArrayView; the creator's handle is dropped right away or later
       SharedFA sf;
-      size_t n = (size_t)r.pick(std::vector<int>{1, 4, 50, 300});
+      size_t n = (size_t)r.pick(std::vector<int>{0, 1, 4, 50, 300});
       std::vector<T> d = fresh(n);
       sf.p   = std::make_shared<FixedArray<T>>(d);
       sf.buf = newBuf(d);
-      size_t off = r.below(n), len = r.below(n - off + 1);
+      // offsets 0..n: a view may start at the very end of the array (it is then empty), also of an empty array
+      size_t off = r.chance(1, 6) ? n : r.below(n + 1), len = r.below(n - off + 1);
+      if (off == n)
+        vh::count("fixed_array_views_at_the_end");
       s.clear();
       s.fav.reset(new FixedArrayView<T>(sf.p, off, len));
       s.kind = FAV, s.buf = sf.buf, s.off = off, s.n = len, s.src = -1;
@@ -644,7 +647,7 @@ struct World
       size_t j = r.below(shared.size());
       if (r.chance(1, 2) && shared[j].p) {
         size_t n = shared[j].p->size();
-        size_t off = n ? r.below(n) : 0, len = n ? r.below(n - off + 1) : 0;
+        size_t off = r.below(n + 1), len = r.below(n - off + 1);
         s.clear();
         s.fav.reset(new FixedArrayView<T>(shared[j].p, off, len));
         s.kind = FAV, s.buf = shared[j].buf, s.off = off, s.n = len, s.src = -1;
